@@ -292,7 +292,10 @@ public:
 
     static Interval compare(const Interval& a, const Interval& b)
     {
-        if (a.upper() < b.lower()) {
+        if (a.maybe_nan || b.maybe_nan) {
+            // Comparisons with NaN are false, so the point result is 0
+            return Interval(-1, 1, false);
+        } else if (a.upper() < b.lower()) {
             return Interval(-1, -1, false);
         } else if (a.lower() > b.upper()) {
             return Interval(1, 1, false);
